@@ -146,17 +146,24 @@ void ardCase(Ctx& c, std::string const& variant) {
 }
 
 // ---------- composite kernels (sub-kernel objects are supplied by the user, their state is serialised) ----------
-void scaledCase(Ctx& c, std::string const&) {
+// variant gauss: base = GaussianRbfKernel; poly: base = PolynomialKernel with FIXED degree (the fresh base kernel of b has the
+// same degree-is-parameter flag, the default-constructed base kernel of the "default" target has the opposite one: the flag is
+// streamed state of the base kernel and decides which derivatives the base kernel -- and therefore the scaled kernel -- offers)
+void scaledCase(Ctx& c, std::string const& variant) {
 	Prng r(c.seed);
-	GaussianRbfKernel<RealVector> ga(r.in(0.1, 2.0), r.coin()), gb(r.in(2.5, 4.0), false);
-	ScaledKernel<RealVector> a(&ga, r.in(0.1, 2.0));
-	ScaledKernel<RealVector> b(&gb, r.in(2.5, 4.0));
+	bool poly = variant == "poly";
+	GaussianRbfKernel<RealVector> ga(r.in(0.1, 2.0), r.coin()), gb(r.in(2.5, 4.0), false), gd;
+	PolynomialKernel<RealVector> pa((unsigned)r.range(1, 3), r.in(0.1, 2.0), false), pb(4, r.in(2.5, 4.0), false), pd;
+	K* ka = poly ? static_cast<K*>(&pa) : static_cast<K*>(&ga);
+	K* kb = poly ? static_cast<K*>(&pb) : static_cast<K*>(&gb);
+	K* kd = poly ? static_cast<K*>(&pd) : static_cast<K*>(&gd);
+	ScaledKernel<RealVector> a(ka, r.in(0.1, 2.0));
+	ScaledKernel<RealVector> b(kb, r.in(2.5, 4.0));
 	Probes p(r, r.range(1, 4));
-	obsKernel(c.A, a, p); obsKernel(c.A, ga, p, "base.");
+	obsKernel(c.A, a, p); obsKernel(c.A, *ka, p, "base.");
 	c.transfer(a, b);
-	obsKernel(c.B, b, p); obsKernel(c.B, gb, p, "base.");
-	GaussianRbfKernel<RealVector> gd;
-	ScaledKernel<RealVector> d(&gd);
+	obsKernel(c.B, b, p); obsKernel(c.B, *kb, p, "base.");
+	ScaledKernel<RealVector> d(kd);
 	c.transfer(a, d);
 	kernelTargets(c, a, b, d, p);
 }
@@ -247,10 +254,16 @@ void normalizedCase(Ctx& c, std::string const& variant) {
 	kernelTargets(c, a, b, d, p);
 }
 
-void modelKernelCase(Ctx& c, std::string const&) {
+// variant gauss_linear / poly_linear: kernel on the model outputs (poly: fixed degree, see scaledCase)
+void modelKernelCase(Ctx& c, std::string const& variant) {
 	Prng r(c.seed);
+	bool poly = variant == "poly_linear";
 	std::size_t in = r.range(1, 4), mid = r.range(1, 3);
-	GaussianRbfKernel<RealVector> ga(r.in(0.1, 2.0)), gb(r.in(2.5, 4.0));
+	GaussianRbfKernel<RealVector> gga(r.in(0.1, 2.0)), ggb(r.in(2.5, 4.0)), ggd;
+	PolynomialKernel<RealVector> ppa((unsigned)r.range(1, 3), r.in(0.1, 2.0), false), ppb(4, r.in(2.5, 4.0), false), ppd;
+	K& ga = poly ? static_cast<K&>(ppa) : static_cast<K&>(gga);
+	K& gb = poly ? static_cast<K&>(ppb) : static_cast<K&>(ggb);
+	K& gd = poly ? static_cast<K&>(ppd) : static_cast<K&>(ggd);
 	LinearModel<RealVector> ma(Shape(in), Shape(mid), r.coin());
 	// the model of the fresh kernel keeps the input dimension (the probes must stay evaluable when
 	// nothing is restored) but has another output dimension and other parameters
@@ -276,7 +289,7 @@ void modelKernelCase(Ctx& c, std::string const&) {
 		RealMatrix res; k.eval(p.X, p.Y, res);
 		o.mat("batchEval", res);
 	}
-	GaussianRbfKernel<RealVector> gd; LinearModel<RealVector> md;
+	LinearModel<RealVector> md;
 	ModelKernel<RealVector> d(&gd, &md);
 	c.transfer(a, d);
 	kernelTargets(c, a, b, d, p);
@@ -385,12 +398,14 @@ void c18::registerKernels(std::vector<Case>& v) {
 	addCase(v, "ARDKernelUnconstrained", "otherdim", &ardCase);
 	addCase(v, "ARDKernelUnconstrained", "samedim", &ardCase);
 	addCase(v, "ScaledKernel", "gauss", &scaledCase);
+	addCase(v, "ScaledKernel", "poly", &scaledCase);
 	char const* ws[] = {"default", "weights", "adaptive", "alladaptive", "freshadaptive", "noadaptweights"};
 	for (std::size_t i = 0; i != 6; ++i) addCase(v, "WeightedSumKernel", ws[i], &weightedSumCase);
 	addCase(v, "ProductKernel", "gauss_poly", &productCase);
 	addCase(v, "NormalizedKernel", "gauss", &normalizedCase);
 	addCase(v, "NormalizedKernel", "poly", &normalizedCase);
 	addCase(v, "ModelKernel", "gauss_linear", &modelKernelCase);
+	addCase(v, "ModelKernel", "poly_linear", &modelKernelCase);
 	char const* kk[] = {"gauss", "poly"};
 	char const* oo[] = {"off", "nooff"};
 	char const* uu[] = {"o1", "o3"};
